@@ -147,7 +147,14 @@ Word3(k) == IF k < 27 THEN <<Digit3(k \div 9), Digit3((k \div 3) % 3), Digit3(k 
             ELSE LET j == k - 27 IN <<Digit3((j \div 27) % 3), Digit3((j \div 9) % 3), Digit3((j \div 3) % 3), Digit3(j % 3)>>
 \* n distinct words starting at offset o, stride st (st coprime to 108 visits all words)
 BigAlt(n, o, st) == AltSeq([i \in 1..n |-> LitStr(Word3((o + i * st) % 108))])
+\* the same over an alphabet whose bytes differ in their HIGH nibble (A = 0x41, 0 = 0x30, x = 0x78): the nibble tables of the
+\* Teddy variants have one row per nibble value, an alphabet inside one row (a b c = 0x6.) cannot tell the rows apart
+Digit3M(d) == IF d = 0 THEN sA ELSE IF d = 1 THEN s0 ELSE sx
+Word3M(k) == IF k < 27 THEN <<Digit3M(k \div 9), Digit3M((k \div 3) % 3), Digit3M(k % 3)>>
+             ELSE LET j == k - 27 IN <<Digit3M((j \div 27) % 3), Digit3M((j \div 9) % 3), Digit3M((j \div 3) % 3), Digit3M(j % 3)>>
+BigAltM(n, o, st) == AltSeq([i \in 1..n |-> LitStr(IF i % 2 = 0 THEN Word3M((o + i * st) % 108) ELSE Word3((o + i * st) % 108))])
 BIGL(z) == {BigAlt(n, o, st) : n \in {9, 17, 33, 65, 70}, o \in {0, 40}, st \in {1, 5}}
+           \cup {BigAltM(n, o, 5) : n \in {9, 17, 33, 40, 65}, o \in {0, 40}}
            \cup {Cap(BigAlt(n, 3, 7)) : n \in {9, 33, 65}}
            \cup {Cat(BigAlt(n, 11, 1), Plus(Cls({sa,sb}), TRUE)) : n \in {9, 33}}
 
